@@ -54,7 +54,9 @@ PROPERTY = Property(
                      'base64, 0/1/3 NULs, truncated, 60000 bytes, invalid UTF-8, leading/trailing space); AUTHENTICATE LOGIN incl. '
                      'cancel; unknown mechanism; initial response; singly, in failed->good / good->any pairs and seeded triples; '
                      'configurations: TLS not required, TLS required + remote peer (LOGINDISABLED), TLS required + local peer; '
-                     'ManageSieve: PLAIN as initial data and as continuation.  Identity observed through per-user marker mailboxes/scripts',
+                     'ManageSieve: PLAIN as initial data and as continuation.  Identity observed through per-user marker mailboxes/scripts; '
+                     'maildir backend: 5 histories of a user\'s stored secret (replaced, removed with the record kept, user deleted '
+                     'and created again) with LOGINs of the old, new, empty and placeholder passwords after each change',
                      bounded_auth('C09'), decisive=True)],
     level='other', design_ref='6 C09',
     explanation='deductive: the only path that sets a session goes through authenticate -> authorize(authzid) -> new_session '
